@@ -51,6 +51,16 @@ def check_render(o, v, t, per, tag=''):
                 o.fail('reset_start-depends-on-prior-state', '%s %s -> %r' % (describe(v), ft, out))
             if re_ and dfin != ():
                 o.fail('reset_end-not-default', '%s %s -> %r from dirty state leaves %r' % (describe(v), ft, out, dfin))
+    # a format spec that changes nothing ('<': left-justify, no width, no ansi part) must not change what the flags mean
+    for (opt, rs, re_) in FLAGS8:
+        try:
+            with_spec = v.to_str('<', opt, rs, re_)
+        except ValueError:
+            break   # the spec grammar is C12's business
+        if with_spec != outs[(opt, rs, re_)]:
+            o.fail('noop-spec-changes-rendering', "%s: to_str('<', optimize=%s, reset_start=%s, reset_end=%s) -> %r; without the spec %r" % (
+                describe(v), opt, rs, re_, with_spec, outs[(opt, rs, re_)]))
+            break
     for rs in (False, True):
         for re_ in (True, False):
             a, b = outs[(True, rs, re_)], outs[(False, rs, re_)]
